@@ -87,7 +87,7 @@ def model_check(scname, sc=None, invariants=ALL_INVARIANTS, properties=ALL_PROPE
     """Exhaustive TLC run of one scenario. Returns common.TlcResult."""
     sc = dict(sc or SCENARIOS[scname])
     inv = list(invariants)
-    if sc.get('KnownToBothOnly'):
+    if sc.get('KnownToBothOnly') and not sc.get('FreeRetx'):
         inv.append('ConsistentAtRest')
     tmp = tempfile.mkdtemp(prefix='verif-cfg-')
     try:
